@@ -218,12 +218,14 @@ def _vec_effects(ctx, lib, adt, fname, allowed, rule):
 # ----------------------------------------------------------------------------- fail passes
 
 def _queue_terms(root, b):
-    """(queue local, pushed element terms with block) for the Vec<u32> returned by a fail pass"""
+    """(queue term, [(pushed element term, bb)]) for the Vec<u32> returned by a fail pass"""
     ret = root.ret()
     pushes = []
-    for x in members(ret):
-        if x[0] == "mutby" and x[1] == VEC_PUSH:
-            pushes.append((x[2][1], x[4][1]))
+    if ret[0] == "var":
+        for kind, t, bb in root.T.container_defs(ret[2]):
+            t = pnorm(t)
+            if t[0] == "mutby" and t[1] == VEC_PUSH:
+                pushes.append((t[2][1], bb))
     return ret, pushes
 
 
@@ -277,7 +279,7 @@ def _fail_pass(ctx, R, NR, b):
     idx_reads = []
     for vw, bi, c, tj in fv.calls(lambda c: core.callee_base(c.key) == "core::ops::Index::index"):
         cont = vw.op(tj["args"][0])
-        if any(x[0] == "mutby" and x[1] == VEC_PUSH for x in members(cont)):
+        if cont[0] == "var" and core.same(cont, ret):
             idx_reads.append((bi, vw.op(tj["args"][1])))
     okq = len(idx_reads) == 1 and m(Phi(K(0), B("Add", ANY, K(1)), req=[0, 1]), idx_reads[0][1])
     ctx.check(okq, "NFA-FAIL", b, "queue-fifo:" + tag, b.span,
